@@ -562,7 +562,14 @@ class Run(ExtraOps):
         start, stop = op["start"], op["stop"]
         if start < 0 or (stop is not None and stop < start):
             return self.alias(op, t, "illtyped")
-        self.factory(op, [t], lambda: t.rel[start:stop], lambda rel: M.m_slice(t.mv, start, stop))
+        if op.get("pe") is not None:
+            from lsst.daf.relation import Slice
+
+            fl = self.flags(op)
+            self.factory(op, [t], lambda: Slice(start, stop).apply(t.rel, **fl),
+                         lambda rel: self._umodel(t, op, rel, lambda v: M.m_slice(v, start, stop)))
+        else:
+            self.factory(op, [t], lambda: t.rel[start:stop], lambda rel: M.m_slice(t.mv, start, stop))
 
     # ----------------------------------------------------------------- binary
     def _order_loss_required(self, *ents):
